@@ -71,10 +71,11 @@ theorem crash_wedged (j : Nat) (s : Sys) (h : Reach j s) (e c0 : Nat)
   obtain ⟨hw, hH⟩ := wedged_run ls ⟨he', hbehind, hwho⟩ hn hstop
   exact ⟨hH, hw.inv.range⟩
 
-/-- **crash_durable_commits** — every acknowledged branch commit survives: after any crashes,
+/-- **crash_durable_commits_partial** (guard: pool j not deleted and its branches not removed /
+    renamed during the run, as C12 `ack_exactly_once_partial`) — every acknowledged branch commit survives: after any crashes,
     recoveries and further activity it is still exactly once on the parent chain from its branch's
     visible tip (pool j created before, not deleted, its branches not removed). -/
-theorem crash_durable_commits (j : Nat) (hj : j ≠ 0) (s : Sys) (h : ReachB j s) (x : Ack)
+theorem crash_durable_commits_partial (j : Nat) (hj : j ≠ 0) (s : Sys) (h : ReachB j s) (x : Ack)
     (hx : x ∈ s.acks) (hxj : x.pool = j) (ls : List Label) (hn : NoReset j ls) (hd : NoDrop j ls) :
     ∃ t tip, visibleTable (s.run ls).store j = some t ∧ Table.get t x.branch = some tip ∧
       (chain (s.run ls).store j tip).count x.id = 1 := by
